@@ -348,6 +348,12 @@ class P:
                 k, v = self.next()
                 if k == "num":
                     e = ("field", e, v)
+                elif self.at("::") and self.peek(1)[1] == "<":
+                    self.next()
+                    self.next()
+                    tf = self.ty()
+                    self.eat(">")
+                    e = ("mcall", e, v + "::<" + str(tf) + ">", self.args())
                 elif self.at("("):
                     e = ("mcall", e, v, self.args())
                 else:
@@ -667,6 +673,11 @@ class Tr:
             if e[2] in ("0", "1") and isinstance(t, tuple) and t[0] == "tuple" and len(t[1]) == 2:
                 return b, "(%s %s)" % ("fst" if e[2] == "0" else "snd", paren(a)), t[1][int(e[2])]
             raise Unsupported("field ." + e[2])
+        if k == "arrayrep" and e[1][0] == "arrayrep" and e[1][1][0] == "num" and e[1][1][1] == 0 \
+                and e[1][2][0] == "num":
+            # `[[0u64; K]; N]`: only ever viewed as a flat `&mut [u64]` (see from_raw_parts_mut below)
+            bn, an, _ = self.ex(f, e[2], env, "usize")
+            return bn, "(repeat 0 (Z.to_nat (%d * %s)))" % (e[1][2][1], paren(an)), ("flatbuf", "u64")
         if k == "arrayrep":
             b, a, t = self.ex(f, e[1], env, "u64")
             bn, an, _ = self.ex(f, e[2], env, "usize")
@@ -946,6 +957,19 @@ class Tr:
         if name == "Some":
             b, a, t = self.ex(f, args[0], env, want[1] if (want and want[0] == "option") else None)
             return b, "(Some %s)" % paren(a), ("option", t)
+        if name in ("core::slice::from_raw_parts_mut", "slice::from_raw_parts_mut") and len(args) == 2 \
+                and args[0][0] == "mcall" and args[0][2] == "cast::<u64>" and not args[0][3] \
+                and args[0][1][0] == "mcall" and args[0][1][2] == "as_mut_ptr" and not args[0][1][3]:
+            # the first n words of a flat u64 buffer; n beyond the buffer is undefined behaviour in Rust and a
+            # Panic here.  Only allowed for a buffer that is not used again under its own name.
+            b0, a0, t0 = self.ex(f, args[0][1][1], env)
+            if t0 != ("flatbuf", "u64"):
+                raise Unsupported("from_raw_parts_mut of %s" % (t0,))
+            b1, a1, t1 = self.ex(f, args[1], env, "usize")
+            f.impure = True
+            v = f.fresh()
+            return b0 + b1 + ["do %s <- (if %s <=? lenZ %s then Val (firstn (Z.to_nat %s) %s) else Panic) ;" % (
+                v, paren(a1), paren(a0), paren(a1), paren(a0))], v, ("slice", "u64")
         if name == "Wrapping":
             b, a, t = self.ex(f, args[0], env, "u64")
             return b, a, "W64"
@@ -1044,6 +1068,8 @@ class Tr:
             return bs, "(Redc.reduce1_carry %s)" % " ".join(atoms), ("arr", "u64", "N")
         if name not in self.sigs and name.startswith("algorithms::") and name[12:] in self.sigs:
             name = name[12:]
+        if name not in self.sigs and name.startswith("crate::") and name[7:] in self.sigs:
+            name = name[7:]
         if name not in self.sigs:
             raise Unsupported("call to untranslated function " + name)
         return self.apply(f, name, args, env)
@@ -2046,6 +2072,7 @@ UINT_IMPL = "impl<const BITS: usize, const LIMBS: usize> Uint<BITS, LIMBS>"
 WHILE_FUEL = {
     "g_overflowing_pow": "Datatypes.S (Z.to_nat BITS)",     # exp < 2^BITS is halved every round
     "g_wrapping_pow": "Datatypes.S (Z.to_nat BITS)",
+    "g_pow_mod": "Datatypes.S (Z.to_nat BITS)",
     "g_mat_from_u64": "70%nat",                   # r0 at least halves every round
     "g_mat_from_u64_prefix": "64%nat",            # a3 at least halves every round
 }
@@ -2192,6 +2219,8 @@ TARGETS = [
     ("src/modular.rs", UINT_IMPL, "inv_mod", "U.inv_mod", "g_u_inv_mod", "uint"),
     ("src/modular.rs", UINT_IMPL, "reduce_mod", "U.reduce_mod", "g_reduce_mod", "uint"),
     ("src/modular.rs", UINT_IMPL, "add_mod", "U.add_mod", "g_add_mod", "uint"),
+    ("src/modular.rs", UINT_IMPL, "mul_mod", "U.mul_mod", "g_mul_mod", "uint"),
+    ("src/modular.rs", UINT_IMPL, "pow_mod", "U.pow_mod", "g_pow_mod", "uint"),
     ("src/modular.rs", UINT_IMPL, "mul_redc", "U.mul_redc", "g_u_mul_redc", "uint"),
     ("src/modular.rs", UINT_IMPL, "square_redc", "U.square_redc", "g_u_square_redc", "uint"),
     ("src/pow.rs", UINT_IMPL, "overflowing_pow", "U.overflowing_pow", "g_overflowing_pow", "uint"),
